@@ -63,6 +63,8 @@ def run(seed, check=None):
         rc, out = sh([os.path.join(ROOT, "check"), check], cwd=ROOT, timeout=1800)
     finally:
         sh(["git", "-C", "/repo", "checkout", "--", "."])
+        # what the run wrote from the changed tree is not evidence and not the translation of /repo: restore both
+        sh(["git", "-C", ROOT, "checkout", "--", "evidence/%s.json" % check, "coq/Generated"])
     lines = [l for l in out.splitlines() if l.startswith(("VIOLATION", "OK", "KNOWN", "BROKEN"))]
     print(seed, check, "rc=%d" % rc, "%.0fs" % (time.time() - t0), "|", " ; ".join(lines)[:300])
     res = meta.setdefault("detected_by", {})
